@@ -20,6 +20,18 @@ class Unknown:
         return "Unknown(%s)" % self.why
 
 
+class LazyIter:
+    """an unbounded integer range (`start..`) under adapter stages; only consumed lazily, with a bound"""
+    LIMIT = 100000
+
+    def __init__(self, start, stages=()):
+        self.start = start
+        self.stages = list(stages)
+
+    def __repr__(self):
+        return "LazyIter(%d.., %d stages)" % (self.start, len(self.stages))
+
+
 class Var:
     """enum variant / struct value"""
 
@@ -491,6 +503,9 @@ class Interp:
                 d = self.default_of(md.group(1))
                 if d is not None:
                     return d
+            r_ = self.std_fn(path_n, args)
+            if r_ is not NotImplemented:
+                return r_
             return Unknown("no body for " + path)
         for a_ in args:
             if is_unknown(a_):
@@ -945,6 +960,8 @@ class Interp:
                     return False
                 if norm(v.path).rsplit("::", 1)[0] == norm(p.get("path")).rsplit("::", 1)[0] and (v.path in OK_PATHS + ERR_PATHS + SOME_PATHS + NONE_PATHS):
                     return False  # another variant of the same std enum
+                if self.same_enum(v.path, p.get("path")) and p.get("dk", "Variant") in ("Variant", None, "Ctor") and norm(p.get("path") or "").rsplit("::", 1)[0] not in self.F.structs:
+                    return False  # another unit variant of the same (possibly external) enum
                 return self._bind_through_deref(p, v, env)
             return None
         if k == "PTupleStruct":
@@ -982,6 +999,8 @@ class Interp:
                         return r
                 return True
             return None
+        if k in ("PLit", "PRange") and isinstance(v, MutRef):
+            v = v.get()
         if k == "PLit":
             lv = self.lit_value(p)
             if p.get("neg"):
@@ -1094,7 +1113,26 @@ class Interp:
         return UNIT
 
     def ev_Ref(self, n, env):
-        return self.ev(n["a"], env)
+        v = self.ev(n["a"], env)
+        if n.get("mut") and not isinstance(v, MutRef) and isinstance(v, (int, float, bool)):
+            # `&mut place` of a scalar: later writes through the reference must reach the place
+            a = strip_node(n["a"])
+            if a.get("k") == "Path" and a.get("res") == "local" and a.get("id") in env:
+                i_ = a["id"]
+                return MutRef(lambda: env[i_], lambda x: env.__setitem__(i_, x))
+            if a.get("k") == "Field":
+                base = self.ev(a["a"], env)
+                if isinstance(base, MutRef):
+                    base = base.get()
+                nm = a["name"]
+                if isinstance(base, Var) and nm in base.fields:
+                    return MutRef(lambda: base.fields[nm], lambda x: base.fields.__setitem__(nm, x))
+            if a.get("k") == "Index":
+                base = self.ev(a["a"], env)
+                i = self.ev(a["i"], env)
+                if isinstance(base, ListV) and isinstance(i, int) and 0 <= i < len(base.items):
+                    return _slot_ref(base, i)
+        return v
 
     def ev_Cast(self, n, env):
         v = self.ev(n["a"], env)
@@ -1278,6 +1316,8 @@ class Interp:
                 return True
             return Unknown("|| lhs %r" % (a,))
         b = self.ev(n["b"], env)
+        if isinstance(b, MutRef):
+            b = b.get()
         if is_unknown(a):
             return a
         if is_unknown(b):
@@ -1407,7 +1447,48 @@ class Interp:
         f = self.F.fns.get(callee)
         if f is not None:
             return self.call_fn(callee, args)
+        r_ = self.std_fn(cn, args, n)
+        if r_ is not NotImplemented:
+            return r_
         return Unknown("call to " + cn)
+
+    def std_fn(self, cn, args, n=None):
+        """standard-library functions called by path or used as function values (`.map(ToString::to_string)`, `map_or_else(String::new, ..)`)"""
+        n = n or {}
+        last = cn.rsplit("::", 1)[-1]
+        if cn in ("std::string::String::new", "alloc::string::String::new") and not args:
+            return Rope()
+        if cn in ("std::vec::Vec::new", "alloc::vec::Vec::new", "std::collections::VecDeque::new", "indexmap::IndexMap::new", "indexmap::IndexSet::new", "std::collections::HashMap::new", "std::collections::HashSet::new", "std::collections::BTreeMap::new", "std::collections::BTreeSet::new", "std::iter::empty", "core::iter::empty") and not args:
+            return ListV([])
+        if cn in ("std::slice::from_ref", "core::slice::from_ref", "std::iter::once", "core::iter::once", "std::slice::from_mut") and len(args) == 1:
+            return ListV([args[0]])
+        if cn in ("std::convert::identity", "core::convert::identity") and len(args) == 1:
+            return args[0]
+        if cn in ("std::string::ToString::to_string",) and len(args) == 1:
+            return self.display(args[0])
+        if cn in ("std::clone::Clone::clone", "std::borrow::ToOwned::to_owned") and len(args) == 1:
+            return _deep_clone(args[0]) if isinstance(args[0], (ListV, Var, tuple, Rope)) else args[0]
+        if cn in ("std::cmp::max", "std::cmp::min", "core::cmp::max", "core::cmp::min", "std::cmp::Ord::max", "std::cmp::Ord::min") and len(args) == 2:
+            ka, kb = self._ord_key(args[0]), self._ord_key(args[1])
+            if ka is None or kb is None:
+                return NotImplemented
+            if last == "max":
+                return args[1] if kb >= ka else args[0]
+            return args[0] if ka <= kb else args[1]
+        if cn in ("std::mem::swap", "core::mem::swap"):
+            return NotImplemented
+        if cn.endswith(("option::Option::Some", "prelude::v1::Some")) and len(args) == 1:
+            return Var(SOME_PATHS[0], [args[0]])
+        if cn.endswith(("result::Result::Ok", "prelude::v1::Ok")) and len(args) == 1:
+            return Var(OK_PATHS[0], [args[0]])
+        if cn.endswith(("result::Result::Err", "prelude::v1::Err")) and len(args) == 1:
+            return Var(ERR_PATHS[0], [args[0]])
+        # a method named by path: `str::len`, `Option::is_some`, `f64::abs`, `<[T]>::len`, `Vec::<T>::len`
+        if args and cn.startswith(("std::", "core::", "alloc::", "<", "str::", "f64::", "i64::", "usize::", "i32::", "u64::", "bool::", "char::", "indexmap::")) and "::" in cn:
+            r_ = self.builtin_method(last, cn, args[0], list(args[1:]), n)
+            if not (is_unknown(r_) and str(getattr(r_, "why", "")).startswith("method %s " % last)):
+                return r_
+        return NotImplemented
 
     def local_from(self, v, target):
         """apply a local `impl From<S> for target` to v, if there is exactly one for v's type"""
@@ -1525,7 +1606,132 @@ class Interp:
                     return self.call_fn(tgt, [recv] + args)
         return self.builtin_method(name, cn, recv, args, n)
 
+    def lazy_items(self, it):
+        """generator over the items of a LazyIter (bounded)"""
+        skip = {}
+        produced = 0
+        i = it.start
+        counters = [0] * len(it.stages)
+        while produced < LazyIter.LIMIT and i < it.start + 10 * LazyIter.LIMIT:
+            v = i
+            i += 1
+            keep = True
+            for si, (kind, f) in enumerate(it.stages):
+                if kind == "map":
+                    v = self.apply(f, [v])
+                elif kind == "filter":
+                    r = self.apply(f, [v])
+                    if r is not True:
+                        if r is not False:
+                            yield Unknown("predicate not boolean: %r" % (r,))
+                            return
+                        keep = False
+                        break
+                elif kind == "filter_map":
+                    r = self.apply(f, [v])
+                    if isinstance(r, Var) and r.path in SOME_PATHS:
+                        v = r.args[0]
+                    elif isinstance(r, Var) and r.path in NONE_PATHS:
+                        keep = False
+                        break
+                    else:
+                        yield r if is_unknown(r) else Unknown("filter_map result %r" % (r,))
+                        return
+                elif kind == "skip":
+                    if counters[si] < f:
+                        counters[si] += 1
+                        keep = False
+                        break
+                elif kind == "step_by":
+                    c = counters[si]
+                    counters[si] += 1
+                    if c % f != 0:
+                        keep = False
+                        break
+                elif kind == "enumerate":
+                    v = (counters[si], v)
+                    counters[si] += 1
+                if is_unknown(v):
+                    yield v
+                    return
+            if keep:
+                produced += 1
+                yield v
+        yield Unknown("unbounded iterator not consumed within %d items" % LazyIter.LIMIT)
+
+    def lazy_method(self, name, recv, args):
+        if name in ("map", "filter", "filter_map") and len(args) == 1:
+            return LazyIter(recv.start, recv.stages + [(name, args[0])])
+        if name in ("skip", "step_by") and len(args) == 1 and isinstance(args[0], int):
+            return LazyIter(recv.start, recv.stages + [(name, args[0])])
+        if name == "enumerate" and not args:
+            return LazyIter(recv.start, recv.stages + [("enumerate", None)])
+        if name in ("into_iter", "iter", "by_ref", "peekable", "fuse") and not args:
+            return recv
+        gen = self.lazy_items(recv)
+        if name == "take" and len(args) == 1 and isinstance(args[0], int):
+            out = []
+            for v in gen:
+                if len(out) >= args[0]:
+                    break
+                if is_unknown(v):
+                    return v
+                out.append(v)
+            return ListV(out)
+        if name == "zip" and len(args) == 1 and isinstance(args[0], ListV):
+            out = []
+            for v, w in zip(gen, args[0].items):
+                if is_unknown(v):
+                    return v
+                out.append((v, w))
+            return ListV(out)
+        if name in ("find", "position", "any", "all", "find_map", "take_while", "nth", "next"):
+            out = []
+            for k, v in enumerate(gen):
+                if is_unknown(v):
+                    return v
+                if name == "next":
+                    return Var(SOME_PATHS[0], [v])
+                if name == "nth":
+                    if isinstance(args[0], int) and k == args[0]:
+                        return Var(SOME_PATHS[0], [v])
+                    continue
+                r = self.apply(args[0], [v])
+                if name == "find_map":
+                    if isinstance(r, Var) and r.path in SOME_PATHS:
+                        return r
+                    if isinstance(r, Var) and r.path in NONE_PATHS:
+                        continue
+                    return r if is_unknown(r) else Unknown("find_map result %r" % (r,))
+                if not isinstance(r, bool):
+                    return r if is_unknown(r) else Unknown("predicate not boolean: %r" % (r,))
+                if name == "find" and r:
+                    return Var(SOME_PATHS[0], [v])
+                if name == "position" and r:
+                    return Var(SOME_PATHS[0], [k])
+                if name == "any" and r:
+                    return True
+                if name == "all" and not r:
+                    return False
+                if name == "take_while":
+                    if not r:
+                        return ListV(out)
+                    out.append(v)
+        return Unknown("method %s on an unbounded iterator" % name)
+
     def builtin_method(self, name, cn, recv, args, n):
+        if isinstance(recv, Var) and recv.path.endswith("ops::RangeFrom") and isinstance(recv.fields.get("start"), int):
+            recv = LazyIter(recv.fields["start"])
+        if isinstance(recv, LazyIter):
+            return self.lazy_method(name, recv, args)
+        if name == "zip" and isinstance(recv, ListV) and len(args) == 1 and ((isinstance(args[0], Var) and args[0].path.endswith("ops::RangeFrom") and isinstance(args[0].fields.get("start"), int)) or isinstance(args[0], LazyIter)):
+            it = args[0] if isinstance(args[0], LazyIter) else LazyIter(args[0].fields["start"])
+            out = []
+            for v, w in zip(recv.items, self.lazy_items(it)):
+                if is_unknown(w):
+                    return w
+                out.append((v, w))
+            return ListV(out)
         # an integer range used as an iterator
         if isinstance(recv, Var) and "ops::Range" in recv.path and isinstance(recv.fields.get("start", 0), int) and isinstance(recv.fields.get("end"), int) and name in ("collect", "rev", "map", "filter", "filter_map", "flat_map", "for_each", "fold", "all", "any", "into_iter", "iter", "step_by", "zip", "enumerate", "sum", "count", "len", "find", "position", "skip", "take"):
             hi_ = recv.fields["end"] + (1 if recv.path.endswith("RangeInclusive") else 0)
@@ -2623,6 +2829,10 @@ class Interp:
     def ev_Index(self, n, env):
         a = self.ev(n["a"], env)
         i = self.ev(n["i"], env)
+        if isinstance(i, MutRef):
+            i = i.get()
+        if isinstance(a, Var) and ("index:" + norm(a.path)) in self.models:
+            return self.models["index:" + norm(a.path)](self, [a, i])
         if isinstance(i, Var) and "ops::Range" in i.path:
             kind = i.path.rsplit("::", 1)[-1]
             seq = a.items if isinstance(a, ListV) else (a if isinstance(a, str) else (a.text() if isinstance(a, Rope) and all(isinstance(x, str) for x in a.pieces) else None))
